@@ -49,6 +49,9 @@ type c10Case struct {
 	// FreshClone: the callers share a Clone() of the dialled client that nobody has used before they start, and they
 	// start together (a worker pool handed a clone)
 	FreshClone bool `json:"callers_share_a_fresh_clone,omitempty"`
+	// BothClients (with FreshClone): the callers with an even index use the dialled client, the others its clone: two
+	// clients of one process, each with a connection of its own, at work at the same time
+	BothClients bool `json:"even_callers_use_the_original_client,omitempty"`
 }
 
 // echoResponse builds the response the server produces for a request: it echoes the identifier it read.
@@ -287,6 +290,7 @@ func c10Run(c c10Case) (sig string, err error) {
 	if derr != nil {
 		return "harness-dial", derr
 	}
+	clientOf := func(ci int) *kmipclient.Client { return cl }
 	if c.FreshClone {
 		orig := cl
 		defer orig.Close()
@@ -295,6 +299,14 @@ func c10Run(c c10Case) (sig string, err error) {
 			return "harness-dial", cerr
 		}
 		cl = clone
+		if c.BothClients {
+			clientOf = func(ci int) *kmipclient.Client {
+				if ci%2 == 0 {
+					return orig
+				}
+				return clone
+			}
+		}
 	}
 	// the generator owns the window between send and recv: the hook knows which request was just sent
 	var current sync.Map // goroutine id -> identifier of the call it is executing
@@ -437,7 +449,7 @@ func c10Run(c c10Case) (sig string, err error) {
 							}
 							msg := kmip.NewRequestMessage(kmip.V1_4, pl)
 							msg.BatchItem[0].UniqueBatchItemID = []byte(p.ID)
-							resp, err := cl.Roundtrip(ctx, &msg)
+							resp, err := clientOf(ci).Roundtrip(ctx, &msg)
 							switch {
 							case err != nil:
 								r.Err = err.Error()
@@ -448,7 +460,7 @@ func c10Run(c c10Case) (sig string, err error) {
 							}
 							return nil
 						}
-						resp, err := cl.Request(ctx, &payloads.ActivateRequestPayload{UniqueIdentifier: p.ID})
+						resp, err := clientOf(ci).Request(ctx, &payloads.ActivateRequestPayload{UniqueIdentifier: p.ID})
 						if err != nil {
 							r.Err = err.Error()
 							return nil
@@ -583,6 +595,7 @@ func TestC10OwnResponse(t *testing.T) {
 		}
 		c.Correlation = rapid.SampledFrom([]string{"", "", "unique", "shared", "alternate"}).Draw(rt, "correlation")
 		c.FreshClone = rapid.IntRange(0, 2).Draw(rt, "fresh-clone") == 0
+		c.BothClients = c.FreshClone && rapid.Bool().Draw(rt, "both-clients")
 		key, _ := json.Marshal(c)
 		rec.Case(nt, key, fmt.Sprintf("callers=%d", n), "correlation="+c.Correlation)
 		if nt && rec.WantSample() {
